@@ -317,7 +317,12 @@ type session struct {
 	host     *endpoint
 	honest   *endpoint
 	aborted  bool                // liveness wait expired
-	validSet map[uint64]bool     // heights of unmodified momentums of A handed to the node
+	validSet map[uint64]bool     // heights of A whose momentum (header) was handed to the node unmodified
+	goodBlk  map[types.Hash]bool // account blocks of A handed to the node unmodified
+	tr       []string
+	trace    bool
+	respMu   sync.Mutex
+	respLog  []string
 	poolOK   map[types.Hash]bool // valid account blocks of A handed to the node (alone or inside a momentum)
 	txValid  bool                // a (possibly) valid account block was delivered
 	msgNo    int
@@ -337,6 +342,15 @@ var (
 
 func (s *session) hashAt(h uint64) types.Hash { return s.sh.hashes[h] }
 
+func (s *session) note(format string, args ...interface{}) {
+	s.c.Note(format, args...)
+	if traceClass != "" {
+		s.tr = append(s.tr, fmt.Sprintf(format, args...))
+	}
+}
+
+var traceClass = os.Getenv("VERIF_C15_TRACE")
+
 func (s *session) status(td uint64, head types.Hash) wStatus {
 	return wStatus{ProtocolVersion: protoVersion, NetworkId: uint32(s.chainID), TD: td, CurrentBlock: head, GenesisBlock: s.genesis}
 }
@@ -351,6 +365,17 @@ func (s *session) checkOutgoing(ep *endpoint, request string, reqCode int, known
 			continue
 		}
 		switch m.code {
+		case codeGetBlockHashesFrom, codeGetBlockHashes:
+			c.Class("node-requested-hashes-from-peer")
+		case codeGetBlocks:
+			c.Class("node-requested-momentums-from-peer")
+			if traceClass == "node-requested-momentums-from-peer" {
+				s.trace = true
+			}
+		case codeNewBlock:
+			c.Class("node-propagated-momentum")
+		case codeTx:
+			c.Class("node-sent-transactions")
 		case codeBlockHashes:
 			n, err := rlp.CountValues(listContent(m.data))
 			if err != nil {
@@ -363,7 +388,7 @@ func (s *session) checkOutgoing(ep *endpoint, request string, reqCode int, known
 				if reqCode == codeGetBlockHashesFrom && knownShape {
 					key = "C15/reply-cap"
 				}
-				c.Note("  -> reply carries %d hashes", n)
+				s.note("  -> reply carries %d hashes", n)
 				if c.Failf(key, "BlockHashesMsg with %d hashes (> %d) sent to %s in answer to %s", n, maxHashReply, ep.name, request) {
 					atomic.StoreInt32(&exclFromRecompute, 1)
 				}
@@ -392,7 +417,7 @@ func listContent(b []byte) []byte {
 }
 
 func (s *session) panicKey(code uint64, shape string, stack string) string {
-	if code == codeGetBlockHashes && shape == "unknown-hash" && strings.Contains(stack, "GetMomentumsByHash") {
+	if code == codeGetBlockHashes && strings.Contains(stack, "momentum.(*momentumStore).GetMomentumsByHash") {
 		return "C15/handler-panic"
 	}
 	return fmt.Sprintf("C15/handler-panic/%s", codeName(code))
@@ -414,7 +439,7 @@ func (s *session) afterDeliver(ep *endpoint, o outcome, code uint64, shape, desc
 			return true
 		}
 		key := s.panicKey(code, shape, ep.res.stack)
-		c.Note("  -> PANIC on the peer's handler: %v", ep.res.pval)
+		s.note("  -> PANIC on the peer's handler: %v", ep.res.pval)
 		if c.Failf(key, "handler panic (on a node this terminates the process) after %s: %v\n%s", descr, ep.res.pval, trim(ep.res.stack, 3000)) {
 			if key == "C15/handler-panic" {
 				atomic.StoreInt32(&exclUnknownGetHashes, 1)
@@ -463,24 +488,32 @@ type hmsg struct {
 var amounts = []uint64{0, 1, 2, 3, 127, 128, 129, 511, 512, 513, 1000, 1 << 32, 1 << 63, ^uint64(0) - 1, ^uint64(0)}
 
 func (s *session) pickAmount(label string) uint64 {
-	i := s.c.Pick(label, len(amounts)+1)
-	if i == len(amounts) {
+	switch s.c.Weighted(label+".w", 2, 2, 6, 1) {
+	case 0:
+		return 0
+	case 1:
+		return 1
+	case 3:
 		return s.c.Uint64(label+".r", 0, 700)
 	}
-	return amounts[i]
+	return amounts[s.c.Pick(label, len(amounts))]
 }
 
 func (s *session) pickNumber(label string) uint64 {
 	k := s.k
+	switch s.c.Weighted(label+".w", 2, 2, 6, 2) {
+	case 0:
+		return 0
+	case 1:
+		return 1
+	case 3:
+		return s.c.Uint64(label+".r", 1, k)
+	}
 	vals := []uint64{0, 1, 2, k - 1, k, k + 1, k + 2, k + 600, 1 << 32, 1 << 63, ^uint64(0) - 1, ^uint64(0)}
 	if k > 514 {
 		vals = append(vals, k-511, k-512, k-513)
 	}
-	i := s.c.Pick(label, len(vals)+2)
-	if i >= len(vals) {
-		return s.c.Uint64(label+".r", 1, k)
-	}
-	return vals[i]
+	return vals[s.c.Pick(label, len(vals))]
 }
 
 func (s *session) pickHash(label string) (types.Hash, string) {
@@ -548,7 +581,10 @@ func (s *session) hashList(label string, n int) ([]types.Hash, string) {
 
 var blockCounts = []int{0, 1, 2, 5, 127, 128, 129, 200, 513, 1000, 10000}
 var annCounts = []int{1, 2, 10, 255, 256, 257, 300, 1000}
-var faultKinds = append(append([]string{}, sim.CertainFaults...), "retimed", "content-reordered")
+
+// only faults that make the momentum invalid whatever the state ("retimed" and "content-reordered"
+// re-signed by the elected producer can be other valid momentums: the harness holds every key)
+var faultKinds = append([]string{}, sim.CertainFaults...)
 
 func (s *session) momentumAt(h uint64) *nom.DetailedMomentum {
 	if h >= 2 && h <= earlyTop {
@@ -567,7 +603,10 @@ func (s *session) momentumAt(h uint64) *nom.DetailedMomentum {
 
 // someBlock returns a user account block from A's early history.
 func (s *session) someBlocks(label string) []*nom.AccountBlock {
-	h := uint64(s.c.Int(label+".m", 2, earlyTop))
+	if s.k < 2 {
+		return nil
+	}
+	h := uint64(s.c.Int(label+".m", 2, int(minU(s.k, earlyTop))))
 	return s.sh.early[h].AccountBlocks
 }
 
@@ -764,6 +803,11 @@ func (s *session) genValid(label string, kind string) *hmsg {
 		}
 		m.code, m.payload, m.reaches = codeNewBlockHashes, encHashes(hs), true
 		m.descr = "NewBlockHashes[" + d + "]"
+		for _, h := range hs { // will the fetcher come back for any of them?
+			if ht, ok := s.heightOf[h]; !ok || ht > s.k {
+				m.shape = "announces-unknown"
+			}
+		}
 	case "blocks", "newBlock":
 		var list []*nom.DetailedMomentum
 		var ds []string
@@ -910,27 +954,32 @@ var validKinds = []string{"getHashes", "getHashesFrom", "getBlocks", "blockHashe
 
 // mirrorDecodes: does payload decode as the structure the handler expects for code (harness-side
 // decode with the mirror types)? Used for the non-triviality rule of mutated payloads.
+// streamDecode decodes like Msg.Decode does: one value from a stream, trailing bytes ignored.
+func streamDecode(payload []byte, v interface{}) error {
+	return rlp.NewStream(bytes.NewReader(payload), uint64(len(payload))).Decode(v)
+}
+
 func mirrorDecodes(code uint64, payload []byte) bool {
 	var err error
 	switch code {
 	case codeGetBlockHashes:
 		var v wGetHashes
-		err = rlp.DecodeBytes(payload, &v)
+		err = streamDecode(payload, &v)
 	case codeGetBlockHashesFrom:
 		var v wGetHashesFrom
-		err = rlp.DecodeBytes(payload, &v)
+		err = streamDecode(payload, &v)
 	case codeGetBlocks, codeNewBlockHashes:
 		var v []types.Hash
-		err = rlp.DecodeBytes(payload, &v)
+		err = streamDecode(payload, &v)
 		if err == nil && len(v) == 0 {
 			return false
 		}
 	case codeNewBlock:
 		var v *nom.DetailedMomentum
-		err = rlp.DecodeBytes(payload, &v)
+		err = streamDecode(payload, &v)
 	case codeTx:
 		var v []*nom.AccountBlock
-		err = rlp.DecodeBytes(payload, &v)
+		err = streamDecode(payload, &v)
 		if err == nil && len(v) == 0 {
 			return false
 		}
@@ -1005,9 +1054,9 @@ const (
 
 func (s *session) genMessage(label string) *hmsg {
 	c := s.c
-	w := []int{10, 10, 8, 3, 5, 5, 8, 7, 1, 3, 14, 5, 5}
+	w := []int{5, 8, 7, 3, 7, 7, 10, 10, 1, 3, 16, 4, 6}
 	if s.onA {
-		w = []int{14, 16, 10, 2, 3, 2, 3, 3, 1, 2, 10, 3, 4}
+		w = []int{8, 16, 10, 2, 4, 3, 5, 5, 1, 2, 12, 3, 5}
 	}
 	switch k := c.Weighted(label+".kind", w...); {
 	case k < len(validKinds):
@@ -1037,13 +1086,13 @@ func (s *session) genMessage(label string) *hmsg {
 				m.valid, m.shape, m.fromN, m.fromM = base.valid, base.shape, base.fromN, base.fromM
 			} else if m.code == codeGetBlockHashes {
 				var v wGetHashes
-				_ = rlp.DecodeBytes(p, &v)
-				if _, ok := s.heightOf[v.Hash]; !ok {
+				_ = streamDecode(p, &v)
+				if h, ok := s.heightOf[v.Hash]; !ok || h > s.k {
 					m.shape = "unknown-hash"
 				}
 			} else if m.code == codeGetBlockHashesFrom {
 				var v wGetHashesFrom
-				_ = rlp.DecodeBytes(p, &v)
+				_ = streamDecode(p, &v)
 				m.fromN, m.fromM = v.Number, v.Amount
 				if fromTriggers(v.Number, v.Amount, s.k) {
 					m.shape = "recompute"
@@ -1067,6 +1116,21 @@ func (s *session) genMessage(label string) *hmsg {
 		m.reaches = mirrorDecodes(code, p)
 		if m.reaches && code == codeGetBlockHashes {
 			m.shape = "unknown-hash"
+		}
+		if m.reaches && code == codeGetBlockHashesFrom {
+			var v wGetHashesFrom
+			_ = streamDecode(p, &v)
+			if fromTriggers(v.Number, v.Amount, s.k) {
+				m.shape = "recompute"
+			}
+		}
+		if (m.shape == "unknown-hash" && atomic.LoadInt32(&exclUnknownGetHashes) == 1) ||
+			(m.shape == "recompute" && atomic.LoadInt32(&exclFromRecompute) == 1) {
+			c.Excluded("known-shape-reached-by-random-bytes")
+			m.code = codeTx
+			m.reaches = mirrorDecodes(m.code, p)
+			m.shape = ""
+			m.descr = fmt.Sprintf("%s with random payload %x", codeName(m.code), p)
 		}
 		return m
 	default: // size games
@@ -1118,6 +1182,7 @@ func (s *session) genMessage(label string) *hmsg {
 			base := s.genValid(label, validKinds[c.Pick(label+".base", len(validKinds)-1)])
 			m.code, m.payload = base.code, base.payload
 			m.tx, m.blocksOf, m.valid = base.tx, base.blocksOf, base.valid
+			m.shape, m.fromN, m.fromM = base.shape, base.fromN, base.fromM
 			m.size = uint32(len(m.payload) + c.Int(label+".more", 1, 5000))
 			m.descr = fmt.Sprintf("%s declaring %d bytes, %d present", base.descr, m.size, len(m.payload))
 		}
@@ -1159,6 +1224,12 @@ func (s *session) startResponder(ep *endpoint) {
 				if payload == nil {
 					continue
 				}
+				nv, _ := rlp.CountValues(listContent(payload))
+				s.respMu.Lock()
+				if len(s.respLog) < 40 {
+					s.respLog = append(s.respLog, fmt.Sprintf("node asked %s (%s); answered by policy %q with %s of %d items", codeName(rq.code), clip(rq.data, 12), s.policy, codeName(code), nv))
+				}
+				s.respMu.Unlock()
 				if ep.deliverBytes(code, payload, fmt.Sprintf("responder (%s) answering %s with %s of %d bytes", s.policy, codeName(rq.code), codeName(code), len(payload))) == stalled {
 					return
 				}
@@ -1173,6 +1244,12 @@ func (s *session) stopResponder() {
 		<-s.respDone
 		s.respStop = nil
 	}
+	s.respMu.Lock()
+	for _, l := range s.respLog {
+		s.note("  responder: %s", l)
+	}
+	s.respLog = nil
+	s.respMu.Unlock()
 }
 
 // answer computes the reply to one request of the node; all choices are functions of the
@@ -1236,6 +1313,10 @@ func (s *session) answer(rq rxMsg, n int) (uint64, []byte) {
 				}
 			case "wrong-blocks":
 				d = s.momentumAt(1 + (ht % s.tip))
+			case "height-shift": // the requested hash with another claimed height (the queue files by height)
+				if ht > s.k {
+					d.Momentum.Height += 1 + uint64(i%2)
+				}
 			case "too-many":
 				for j := 0; j < 3; j++ {
 					out = append(out, s.momentumAt(ht))
@@ -1270,7 +1351,7 @@ func (s *session) connectHonest() bool {
 		return false
 	}
 	o := ep.deliverBytes(codeStatus, mustEnc(s.status(1, s.hashAt(1))), "honest status")
-	c.Note("honest peer connects with a valid status -> %v", o)
+	s.note("honest peer connects with a valid status -> %v", o)
 	if o == stalled {
 		s.aborted = true
 		inconclusive(c, "honest handshake made no progress", dumpAll())
@@ -1369,7 +1450,7 @@ func (s *session) honestChecks() {
 		if desc && !asc {
 			c.R.Count("honest_hash_replies_descending", 1)
 		}
-		c.Note("honest %s -> %d correct hashes (ascending=%v)", descr, len(got), asc)
+		s.note("honest %s -> %d correct hashes (ascending=%v)", descr, len(got), asc)
 	}
 	if s.aborted {
 		return
@@ -1412,7 +1493,7 @@ func (s *session) honestChecks() {
 				}
 			}
 		}
-		c.Note("honest %s -> %d correct momentums", descr, len(got))
+		s.note("honest %s -> %d correct momentums", descr, len(got))
 	}
 }
 
@@ -1437,7 +1518,7 @@ func sessionProp(c *pbt.C) {
 	tcase := time.Now()
 	defer func() { c.R.Count("ms_case", int(time.Since(tcase).Milliseconds())) }()
 	sh := world()
-	s := &session{c: c, sh: sh, validSet: map[uint64]bool{}, poolOK: map[types.Hash]bool{}}
+	s := &session{c: c, sh: sh, validSet: map[uint64]bool{}, poolOK: map[types.Hash]bool{}, goodBlk: map[types.Hash]bool{}}
 	s.seed = c.Uint64("seed", 0, 1<<32)
 	s.onA = c.Weighted("target", 60, 40) == 1
 	if s.onA {
@@ -1472,9 +1553,21 @@ func sessionProp(c *pbt.C) {
 	minPeers := c.Int("minPeers", 0, 1)
 	s.pm = protocol.NewProtocolManager(minPeers, s.chainID, s.node.Bridge)
 	s.pm.Start()
-	c.Note("node %s at height %d (hostile peer can present A up to %d), manager started with minPeers=%d", s.node.Name, s.k, s.tip, minPeers)
+	s.note("node %s at height %d (hostile peer can present A up to %d), manager started with minPeers=%d", s.node.Name, s.k, s.tip, minPeers)
 
 	defer s.teardown()
+	defer func() {
+		if s.trace || traceClass == "all" {
+			fmt.Fprintf(os.Stderr, "---- case\n%s\n", strings.Join(s.tr, "\n"))
+		}
+		if traceClass == "fail" {
+			if r := recover(); r != nil {
+				s.stopResponder()
+				fmt.Fprintf(os.Stderr, "---- failing case (%v)\n%s\n", r, strings.Join(s.tr, "\n"))
+				panic(r)
+			}
+		}
+	}()
 
 	honestFirst := c.Bool("honestFirst")
 	if honestFirst {
@@ -1483,10 +1576,15 @@ func sessionProp(c *pbt.C) {
 		}
 	}
 	if !s.onA {
-		s.policy = c.OneOf("policy", "silent", "honest", "honest", "mutated", "garbage", "empty", "too-many", "wrong-blocks", "raw")
+		s.policy = c.OneOf("policy", "silent", "honest", "honest", "mutated", "mutated", "garbage", "empty", "too-many", "wrong-blocks", "height-shift", "raw")
 		s.polFault = faultKinds[c.Pick("policy.fault", len(faultKinds))]
 		if s.policy == "honest" || s.policy == "mutated" || s.policy == "too-many" {
 			for h := s.k + 1; h <= s.tip; h++ { // the responder may hand over A[k+1..tip]
+				s.validSet[h] = true
+			}
+		}
+		if s.policy == "wrong-blocks" {
+			for h := s.k + 1; h <= s.tip; h++ {
 				s.validSet[h] = true
 			}
 		}
@@ -1494,6 +1592,7 @@ func sessionProp(c *pbt.C) {
 			for h := s.k + 1; h <= s.tip; h++ {
 				for _, b := range sh.early[h].AccountBlocks {
 					s.poolOK[b.Hash] = true
+					s.goodBlk[b.Hash] = true
 				}
 			}
 		}
@@ -1520,13 +1619,13 @@ func sessionProp(c *pbt.C) {
 		if !s.sendHostile(m) {
 			return
 		}
-		if !s.onA && m.code == codeNewBlockHashes && c.Weighted(fmt.Sprintf("m%d.awaitFetch", i), 3, 1) == 1 && !s.host.gone() {
+		if !s.onA && m.code == codeNewBlockHashes && m.shape == "announces-unknown" && c.Weighted(fmt.Sprintf("m%d.awaitFetch", i), 3, 1) == 1 && !s.host.gone() {
 			// let the fetcher come back for the announced momentums (the responder answers by policy)
 			t0 := time.Now()
-			defer func() { c.R.Count("ms_await_fetch", int(time.Since(t0).Milliseconds())) }()
 			if s.host.waitRx(func(r rxMsg) bool { return r.code == codeGetBlocks }, 1200*time.Millisecond) {
 				c.Class("fetcher-requested-announced")
 			}
+			c.R.Count("ms_await_fetch", int(time.Since(t0).Milliseconds()))
 			s.checkOutgoing(s.host, "an announcement", -1, false)
 		}
 	}
@@ -1598,10 +1697,10 @@ func sessionProp(c *pbt.C) {
 		}
 	case hNow > s.k && s.allValid(hNow) && fNow == s.hashAt(hNow):
 		c.Class("node-imported-valid-momentums")
-		c.Note("node advanced %d -> %d on momentums of A delivered by the peer", s.k, hNow)
+		s.note("node advanced %d -> %d on momentums of A delivered by the peer", s.k, hNow)
 	default:
-		c.Failf("C15/state-changed", "node went from %d/%s to %d/%s; unmodified momentums of A delivered by the peer: heights %v",
-			s.k, short(frontier0), hNow, short(fNow), s.validHeights())
+		c.Failf("C15/state-changed", "node went from %d/%s to %d/%s; momentums of A handed over unmodified by the peer: heights %v (with all their account blocks: %v)",
+			s.k, short(frontier0), hNow, short(fNow), s.validHeights(), s.allValid(hNow))
 	}
 	if s.reached > 0 {
 		c.NonTrivial()
@@ -1610,10 +1709,17 @@ func sessionProp(c *pbt.C) {
 	c.R.Count("messages_reaching_lookup", s.reached)
 }
 
+// allValid: the peer handed over, unmodified, every momentum of A from the node's height up to
+// upTo and every account block they commit to (in the same message or in another one).
 func (s *session) allValid(upTo uint64) bool {
 	for h := s.k + 1; h <= upTo; h++ {
-		if !s.validSet[h] {
+		if !s.validSet[h] || h > earlyTop {
 			return false
+		}
+		for _, b := range s.sh.early[h].AccountBlocks {
+			if !s.goodBlk[b.Hash] {
+				return false
+			}
 		}
 	}
 	return true
@@ -1704,7 +1810,7 @@ func (s *session) hostConnect(kind string) bool {
 		payload = mustEnc(st)
 		payload = payload[:c.Int("status.cut", 0, len(payload)-1)]
 	case "none":
-		c.Note("hostile peer connects and closes without a status")
+		s.note("hostile peer connects and closes without a status")
 		ep.close()
 		return true
 	}
@@ -1713,7 +1819,7 @@ func (s *session) hostConnect(kind string) bool {
 	}
 	c.Checkpoint()
 	o := ep.deliver(code, uint32(size), bytes.NewReader(payload), "handshake "+kind)
-	c.Note("hostile peer %x connects, handshake %s (code %d, %s) -> %v (%v)", ep.id[:3], kind, code, clip(payload, 12), o, ep.res.err)
+	s.note("hostile peer %x connects, handshake %s (code %d, %s) -> %v (%v)", ep.id[:3], kind, code, clip(payload, 12), o, ep.res.err)
 	if !s.afterDeliver(ep, o, codeStatus, "handshake", "handshake "+kind) {
 		return false
 	}
@@ -1729,10 +1835,59 @@ func (s *session) hostConnect(kind string) bool {
 
 // sendHostile delivers one generated message on the hostile connection and applies the
 // per-message oracles. It returns false if the session must end.
+// scan finds, with the node's own leniency (one value, trailing bytes ignored), what a message
+// hands over that the node may legitimately keep: momentums byte-identical to A's above the node's
+// height, and account blocks with the hash of a block of those momentums.
+func (s *session) scan(m *hmsg) {
+	if m.payload == nil || m.over {
+		return
+	}
+	p := m.payload
+	if int(m.size) < len(p) {
+		p = p[:m.size]
+	}
+	var ds []*nom.DetailedMomentum
+	var bs []*nom.AccountBlock
+	switch m.code {
+	case codeNewBlock:
+		var d *nom.DetailedMomentum
+		if streamDecode(p, &d) == nil && d != nil {
+			ds = append(ds, d)
+		}
+	case codeBlocks:
+		_ = streamDecode(p, &ds)
+	case codeTx:
+		_ = streamDecode(p, &bs)
+	}
+	for _, d := range ds {
+		if d == nil || d.Momentum == nil {
+			continue
+		}
+		bs = append(bs, d.AccountBlocks...)
+		if h, ok := s.heightOf[d.Momentum.Hash]; ok && h > s.k && h <= s.tip && h <= earlyTop {
+			if bytes.Equal(mustEnc(d.Momentum), mustEnc(s.sh.early[h].Momentum)) {
+				s.validSet[h] = true
+			}
+		}
+	}
+	for _, b := range bs {
+		if b == nil {
+			continue
+		}
+		if h, ok := s.sh.blockHome[b.Hash]; ok && h > s.k {
+			s.poolOK[b.Hash] = true
+			if orig := s.sh.blockByHash[b.Hash]; orig != nil && bytes.Equal(mustEnc(b), mustEnc(orig)) {
+				s.goodBlk[b.Hash] = true
+			}
+		}
+	}
+}
+
 func (s *session) sendHostile(m *hmsg) bool {
 	c := s.c
 	ep := s.host
 	s.msgNo++
+	s.scan(m)
 	var rd io.Reader
 	if m.stream != nil {
 		rd = m.stream
@@ -1743,6 +1898,9 @@ func (s *session) sendHostile(m *hmsg) bool {
 	// what the message may legitimately change is recorded before it is sent
 	for _, h := range m.valid {
 		s.validSet[h] = true
+		for _, b := range s.sh.early[h].AccountBlocks {
+			s.goodBlk[b.Hash] = true
+		}
 	}
 	if m.tx {
 		s.txValid = true
@@ -1754,7 +1912,7 @@ func (s *session) sendHostile(m *hmsg) bool {
 	}
 	c.Checkpoint()
 	o := ep.deliver(m.code, m.size, cr, m.descr)
-	c.Note("#%d %s -> %v%s", s.msgNo, m.descr, o, errSuffix(ep, o))
+	s.note("#%d %s -> %v%s", s.msgNo, m.descr, o, errSuffix(ep, o))
 	c.Class("outcome-" + strings.ReplaceAll(o.String(), " ", "-"))
 	if m.reaches && o != stalled {
 		s.reached++
